@@ -164,11 +164,11 @@ pub fn expand<T: AsRef<Path>>(path: T) -> RvResult<PathBuf> {
                     let mut chars = seg.chars().peekable();
 
                     while chars.peek().is_some() {
-                        // Extract chars up to $ and consumes $ as it has to look at it
-                        str += &chars.by_ref().take_while(|&x| x != '$').collect::<String>();
+                        // Extract chars up to $ without consuming it
+                        str += &chars.take_while_p(|&x| x != '$').collect::<String>();
 
                         // Read variable if it exists
-                        if chars.peek().is_some() {
+                        if chars.next_if_eq(&'$').is_some() {
                             chars.next_if_eq(&'{'); // drop {
                             let var = &chars.take_while_p(|&x| x != '$' && x != '}').collect::<String>();
                             chars.next_if_eq(&'}'); // drop }
